@@ -164,6 +164,9 @@ def numeral_python(n, base=10, size=0, digits=stddigits):
     # Divide in half
     half = (size // 2) + (size & 1)
     A, B = divmod(n, base**half)
+    if not A:
+        # n has fewer digits than announced
+        return numeral(B, base, half, digits)
     ad = numeral(A, base, half, digits)
     bd = numeral(B, base, half, digits).rjust(half, "0")
     return ad + bd
@@ -186,6 +189,9 @@ def numeral_gmpy(n, base=10, size=0, digits=stddigits):
     # Divide in half
     half = (size // 2) + (size & 1)
     A, B = divmod(n, MPZ(base)**half)
+    if not A:
+        # n has fewer digits than announced
+        return numeral(B, base, half, digits)
     ad = numeral(A, base, half, digits)
     bd = numeral(B, base, half, digits).rjust(half, "0")
     return ad + bd
